@@ -112,8 +112,8 @@ def parse_stderr(text):
     return out
 
 
-def run_verus(path, seed=None, extra=(), multiple_errors=12):
-    cmd = ["verus", path, "--output-json", "--time", "--multiple-errors", str(multiple_errors), "--rlimit", str(CFG.VERUS_RLIMIT), "--num-threads", str(CFG.VERUS_THREADS), "--triggers-mode", "silent"]
+def run_verus(path, seed=None, extra=(), multiple_errors=12, rlimit=None):
+    cmd = ["verus", path, "--output-json", "--time", "--multiple-errors", str(multiple_errors), "--rlimit", str(rlimit or CFG.VERUS_RLIMIT), "--num-threads", str(CFG.VERUS_THREADS), "--triggers-mode", "silent"]
     if seed is not None:
         cmd += ["--smt-option", "smt.random_seed=%d" % seed]
     cmd += list(extra)
@@ -233,7 +233,9 @@ def verify_canary(unit, scratch):
     contradictory precondition, invariant or assumed contract would make them pass).
     Returns the list of functions where `false` is provable."""
     path, report = build_unit(unit, scratch, canary=True)
-    res = run_verus(path, multiple_errors=8)
+    # a contradictory context proves `false` at once; a small resource limit is enough to tell
+    # (a canary that runs out of resources is undecided, which is not vacuous)
+    res = run_verus(path, multiple_errors=3, rlimit=CFG.CANARY_RLIMIT)
     js = res["json"]
     if js is None or "verification-results" not in js:
         raise NoVerdict("canary build of unit `%s` rejected: %s" % (unit, res["stderr"][-1500:]))
